@@ -139,6 +139,11 @@ func genHostile(r *rand.Rand, enc *json.Encoder, cfg Cfg, id int, depth int) {
 			}
 		}
 	}
+	// half of the time the bytes are read by another version of the type (fields removed, added, renamed at any depth):
+	// the reader then has to skip what it does not know, inside slice elements and map values too
+	if r.Intn(2) == 0 {
+		t = derive(r, o, t, 2)
+	}
 	via := []string{"unmarshal", "unmarshal", "descriptor"}[r.Intn(3)]
 	if via == "descriptor" && hasRecursion(t) {
 		via = "unmarshal"
